@@ -615,7 +615,7 @@ impl PoolImpl {
     { unimplemented!() }
 
     // Event / repair channel sends and certificate follow-up: effects on other components are not
-    // tracked in this unit (ASSUMED to keep the pool invariant; add_valid_cert is not yet under contract).
+    // tracked in this unit.
     #[verifier::external_body]
     pub fn send_votor_event(&self, event: PoolEvent)
         ensures
@@ -624,11 +624,6 @@ impl PoolImpl {
     { unimplemented!() }
     #[verifier::external_body]
     pub fn send_repair(&self, block: BlockId) { unimplemented!() }
-    #[verifier::external_body]
-    pub fn add_valid_cert(&mut self, cert: Cert)
-        requires old(self).epoch_info == old(self).epoch_info,
-        ensures final(self).epoch_info == old(self).epoch_info,
-    { unimplemented!() }
 
 /*@ extract src/consensus/pool.rs :: impl PoolImpl/fn first_unpruned_slot
 props C08 C04
@@ -696,6 +691,7 @@ ensures
         forall|s: Slot| #[trigger] final(self).slot_states@.contains_key(s) <==> (old(self).slot_states@.contains_key(s) && s.0 >= old(self).lo()),
         forall|s: Slot| final(self).slot_states@.contains_key(s) ==> final(self).slot_states@[s] == old(self).slot_states@[s],
         final(self).finality_tracker == old(self).finality_tracker,
+        final(self).s2n_waiting_parent_cert == old(self).s2n_waiting_parent_cert && final(self).epoch_info == old(self).epoch_info,
 before `self.parent_ready_tracker.prune(`
         proof {
             assert forall|s: Slot| #[trigger] self.slot_states@.contains_key(s) == self.slot_states.spec_map().contains_key(s) by {}
@@ -825,14 +821,15 @@ impl SlotState {
     { unimplemented!() }
 }
 impl PoolImpl {
-    // ASSUMED: the pool-level follow-up of a finalization (parent-ready events, pruning of decided slots) does not touch the
-    // map of blocks waiting for a parent certificate
-    #[verifier::external_body]
-    pub fn handle_finalization(&mut self, event: FinalizationEvent)
-        ensures
-            final(self).s2n_waiting_parent_cert == old(self).s2n_waiting_parent_cert,
-            final(self).epoch_info == old(self).epoch_info,
-    { unimplemented!() }
+/*@ extract src/consensus/pool.rs :: impl PoolImpl/fn handle_finalization
+props C06 C08
+elide-async
+ensures
+        // the pool-level follow-up of a finalization (parent-ready events, pruning of decided slots) does not touch the map of
+        // blocks waiting for a parent certificate
+        final(self).s2n_waiting_parent_cert == old(self).s2n_waiting_parent_cert,
+        final(self).epoch_info == old(self).epoch_info,
+@*/
     #[verifier::external_body]
     pub fn send_parent_ready_events(&self, parents: SmallVec<[(Slot, BlockId); 1]>) { unimplemented!() }
 
@@ -889,7 +886,6 @@ blockend `let Some(output) = self .slot_state(child_slot) .verif_notify_parent_c
 @*/
 
 /*@ extract src/consensus/pool.rs :: impl PoolImpl/fn add_valid_cert
-as add_valid_cert_body
 props C06
 elide-async
 rewrite*[R9] `cert.clone()` => `verif_clone_cert(&cert)`
